@@ -5,7 +5,7 @@ from sim.props.base import Prop, gen_session
 class C05(Prop):
     id = "C05"
     level = "exploration"
-    RUNS = {"quick": 1200, "thorough": 20000}
+    RUNS = {"quick": 2400, "thorough": 20000}
     BUDGET = {"quick": 75, "thorough": 900}
     ORACLES = ("O-DELIVERY",)
     RULE = ("seeded sessions: template model (all 24 classes, 8 steps, partitions, LMIs) + decorations, 1-3 solves on "
